@@ -180,6 +180,35 @@ def main():
                     break
             if fail:
                 break
+        if fail is None and not a.fn.endswith('is_parent_around'):
+            # a deep restore: one variable with 1500 strictly decreasing groups, cut after 1400 pops (the restore walk is 1400 levels deep,
+            # beyond Python's default recursion limit of 1000)
+            g = PcfgGrammar.__new__(PcfgGrammar)
+            g.debug = False
+            g.grammar = {'D1': [{'values': ['d%d' % i], 'prob': 0.999 ** i} for i in range(1500)]}
+            g.base = [{'prob': 1.0, 'replacements': ['D1']}]
+            base = full_run(g, pq)
+            deep_cuts = [(g, base, 1400, 'D1 with 1500 groups of probability 0.999**i, base D1 1.0')]
+            # ... and two long variables (the depth of the walk is the SUM of the indices, here up to about 1050)
+            g2 = PcfgGrammar.__new__(PcfgGrammar)
+            g2.debug = False
+            g2.grammar = {'D1': [{'values': ['d%d' % i], 'prob': 0.999 ** i} for i in range(900)],
+                          'O1': [{'values': ['o%d' % i], 'prob': 1.0 - i * 1e-7} for i in range(150)]}
+            g2.base = [{'prob': 1.0, 'replacements': ['D1', 'O1']}]
+            base2 = full_run(g2, pq)
+            # (first, while the process still has Python's default recursion limit)
+            deep_cuts.insert(0, (g2, base2, len(base2) - 3, 'D1 with 900 groups 0.999**i, O1 with 150 groups 1 - i*1e-7, base D1O1 1.0'))
+            for g, base, k, what in deep_cuts:
+                q1 = pq.PcfgQueue(g)
+                for _ in range(k):
+                    q1.next()
+                q2, M = resume(g, pq, q1)
+                ok, why, emitted = judge(g, base, k, q2, M)
+                cases += 1
+                distinct.add('deep-%d' % k)
+                if not ok:
+                    fail = {'function': a.fn, 'ruleset': what, 'input': {'cut_after_pop': k, 'saved_probability': M},
+                            'why': why, 'resumed_head': emitted[:5]}
     except Exception as ex:
         import traceback
         fail = {'function': a.fn, 'exception': repr(ex), 'traceback': traceback.format_exc()[-1500:],
